@@ -39,10 +39,62 @@ def Tr.undo (S : Schema) (tr : Tr) : Res Node := S.unwind (tr.steps.zip tr.docs)
 /-- the document after the first recorded step of `hist` (the final document if there is none) -/
 def histNext (hist : List (Step × Node)) (fin : Node) : Node := (hist.head?.map (·.2)).getD fin
 
-/-- every recorded step is undone exactly by its own inverse -/
-def UndoChain (S : Schema) : List (Step × Node) → Node → Prop
+/-- `G step before after` holds of every recorded step -/
+def HistAll (G : Step → Node → Node → Prop) : List (Step × Node) → Node → Prop
   | [], _ => True
-  | (s, d) :: rest, fin => StepUndoes S s d (histNext rest fin) ∧ UndoChain S rest fin
+  | (s, d) :: rest, fin => G s d (histNext rest fin) ∧ HistAll G rest fin
+
+/-- every recorded step is undone exactly by its own inverse -/
+abbrev UndoChain (S : Schema) := HistAll (StepUndoes S)
+
+/-- the recorded history replays: each recorded step applied to its recorded document gives the next
+    recorded document -/
+abbrev ReplayChain (S : Schema) := HistAll (fun s d d' => S.apply s d = .ok d')
+
+theorem histNext_append (h1 h2 : List (Step × Node)) (fin : Node) :
+    histNext (h1 ++ h2) fin = histNext h1 (histNext h2 fin) := by
+  cases h1 <;> simp [histNext]
+
+theorem histAll_append (G : Step → Node → Node → Prop) : ∀ (h1 h2 : List (Step × Node)) (fin : Node),
+    HistAll G (h1 ++ h2) fin ↔ HistAll G h1 (histNext h2 fin) ∧ HistAll G h2 fin
+  | [], h2, fin => by simp [HistAll]
+  | (s, d) :: rest, h2, fin => by
+    simp only [List.cons_append, HistAll, histAll_append G rest h2 fin, histNext_append, and_assoc]
+
+theorem histAll_mono {G G' : Step → Node → Node → Prop} (h : ∀ s d d', G s d d' → G' s d d') :
+    ∀ (hist : List (Step × Node)) (fin : Node), HistAll G hist fin → HistAll G' hist fin
+  | [], _, _ => trivial
+  | (s, d) :: rest, fin, ⟨h1, h2⟩ => ⟨h s d _ h1, histAll_mono h rest fin h2⟩
+
+theorem histAll_and {G G' : Step → Node → Node → Prop} :
+    ∀ (hist : List (Step × Node)) (fin : Node), HistAll G hist fin → HistAll G' hist fin →
+      HistAll (fun s d d' => G s d d' ∧ G' s d d') hist fin
+  | [], _, _, _ => trivial
+  | (_, _) :: rest, fin, ⟨h1, h2⟩, ⟨h1', h2'⟩ => ⟨⟨h1, h1'⟩, histAll_and rest fin h2 h2'⟩
+
+/-- position-by-position form -/
+theorem histAll_of_get (G : Step → Node → Node → Prop) : ∀ (hist : List (Step × Node)) (fin : Node),
+    (∀ k (hk : k < hist.length), G hist[k].1 hist[k].2 (histNext (hist.drop (k + 1)) fin)) →
+    HistAll G hist fin
+  | [], _, _ => trivial
+  | (s, d) :: rest, fin, h => by
+    refine ⟨?_, histAll_of_get G rest fin (fun k hk => ?_)⟩
+    · have := h 0 (by simp)
+      simp only [List.getElem_cons_zero, Nat.zero_add, List.drop_succ_cons, List.drop_zero] at this
+      exact this
+    · have := h (k + 1) (by simp; omega)
+      simpa using this
+
+theorem histAll_get (G : Step → Node → Node → Prop) : ∀ (hist : List (Step × Node)) (fin : Node),
+    HistAll G hist fin →
+    ∀ k (hk : k < hist.length), G hist[k].1 hist[k].2 (histNext (hist.drop (k + 1)) fin)
+  | [], _, _, k, hk => by simp at hk
+  | (_, _) :: rest, fin, ⟨h1, h2⟩, k, hk => by
+    cases k with
+    | zero =>
+      simp only [List.getElem_cons_zero, Nat.zero_add, List.drop_succ_cons, List.drop_zero]
+      exact h1
+    | succ k => simpa using histAll_get G rest fin h2 k (by simpa using hk)
 
 /-- **composition**: a history whose steps are each undone exactly by their inverse is undone exactly
     by the inverted steps in reverse order -/
@@ -54,36 +106,26 @@ theorem unwind_of_chain (S : Schema) : ∀ (hist : List (Step × Node)) (fin : N
     simp only [Schema.unwind, unwind_of_chain S rest fin hr, hi, ha]
     rfl
 
-/-- the recorded history replays: each recorded step applied to its recorded document gives the next
-    recorded document -/
-def ReplayChain (S : Schema) : List (Step × Node) → Node → Prop
-  | [], _ => True
-  | (s, d) :: rest, fin => S.apply s d = .ok (histNext rest fin) ∧ ReplayChain S rest fin
-
 /-- **composition with an invariant**: `I` holds of the starting document and is kept by every
     recorded step that satisfies its guard `G`; under `I` and `G` a recorded step is undone exactly.
     Then the whole history is undone exactly, and `I` holds of the final document. -/
 theorem chain_of_invariant (S : Schema) (I : Node → Prop) (G : Step → Node → Node → Prop)
     (hstep : ∀ s d d', I d → S.apply s d = .ok d' → G s d d' → StepUndoes S s d d' ∧ I d') :
     ∀ (hist : List (Step × Node)) (fin : Node), I (histNext hist fin) → ReplayChain S hist fin →
-      (∀ k (hk : k < hist.length), G hist[k].1 hist[k].2 (histNext (hist.drop (k + 1)) fin)) →
-      UndoChain S hist fin ∧ I fin
+      HistAll G hist fin → UndoChain S hist fin ∧ I fin
   | [], fin, hI, _, _ => ⟨trivial, hI⟩
   | (s, d) :: rest, fin, hI, hr, hG => by
     obtain ⟨ha, hr'⟩ := hr
+    obtain ⟨hg0, hG'⟩ := hG
     have hI0 : I d := hI
-    have hg0 := hG 0 (by simp)
-    simp only [List.getElem_cons_zero, Nat.zero_add, List.drop_succ_cons, List.drop_zero] at hg0
     obtain ⟨hu, hI1⟩ := hstep s d _ hI0 ha hg0
-    obtain ⟨hc, hfin⟩ := chain_of_invariant S I G hstep rest fin hI1 hr' (fun k hk => by
-      have := hG (k + 1) (by simp; omega)
-      simpa using this)
+    obtain ⟨hc, hfin⟩ := chain_of_invariant S I G hstep rest fin hI1 hr' hG'
     exact ⟨⟨hu, hc⟩, hfin⟩
 
 theorem unwind_of_invariant (S : Schema) (I : Node → Prop) (G : Step → Node → Node → Prop)
     (hstep : ∀ s d d', I d → S.apply s d = .ok d' → G s d d' → StepUndoes S s d d' ∧ I d')
     (hist : List (Step × Node)) (fin : Node) (hI : I (histNext hist fin)) (hr : ReplayChain S hist fin)
-    (hG : ∀ k (hk : k < hist.length), G hist[k].1 hist[k].2 (histNext (hist.drop (k + 1)) fin)) :
+    (hG : HistAll G hist fin) :
     S.unwind hist fin = .ok (histNext hist fin) :=
   unwind_of_chain S hist fin (chain_of_invariant S I G hstep hist fin hI hr hG).1
 
